@@ -1,19 +1,20 @@
 ---------------------------- MODULE AmqpRpcTrace ----------------------------
-(* Trace validation of the real aio_pika client backend and server integration run over an in-memory broker whose deliveries
-   follow a schedule TLC generated (AmqpRpc). *)
+(* Trace validation of the real aio_pika (asynchronous, several calls in flight) and kombu (synchronous, one call at a time)
+   client backends and server integrations run over an in-memory broker whose deliveries follow a schedule TLC generated
+   (AmqpRpc).  `pending` (the size of the client's table of futures) is reported by the aio_pika driver only. *)
 EXTENDS AmqpRpc, TraceBase
 TraceInit == tid \in 1..NTraces /\ l = 1 /\ InitWith(Traces[tid].scn.cfg)
 \* the call task ran up to its first suspension: what it put on the request queue
 TStart   == /\ IsEvent("Start") /\ E.i \in Idx /\ Start(E.i)
             /\ E.reply_to = (IF IsCall(E.i) THEN (IF cfg.mode = "shared" THEN "results" ELSE "own") ELSE "none")
-            /\ E.has_cid = IsCall(E.i) /\ E.ctype_ok = TRUE /\ E.pending = Cardinality(futures')
+            /\ E.has_cid = IsCall(E.i) /\ E.ctype_ok = TRUE /\ ("pending" \in DOMAIN E => E.pending = Cardinality(futures'))
 \* the server handled the head of the request queue
 TServe   == /\ IsEvent("Serve") /\ Serve
             /\ E.call = Head(reqQ).call /\ E.executed = TRUE /\ E.acks = 1
             /\ E.published = IsCall(Head(reqQ).call)
             /\ (E.published => (E.same_cid = TRUE /\ E.to_reply_queue = TRUE /\ E.ctype_ok = TRUE))
 \* the broker delivered the head of a reply queue to the client's result consumer
-TDeliver == /\ IsEvent("Deliver") /\ E.q \in Queues /\ DeliverReply(E.q) /\ E.pending = Cardinality(futures')
+TDeliver == /\ IsEvent("Deliver") /\ E.q \in Queues /\ DeliverReply(E.q) /\ ("pending" \in DOMAIN E => E.pending = Cardinality(futures'))
 TStray   == IsEvent("Stray") /\ Stray(E.q, E.cid, E.ctype)
 TClose   == IsEvent("Close") /\ Close /\ E.pending = 0
 \* a call task finished: checked against the state the model is in
@@ -22,7 +23,8 @@ TOutcome == /\ IsEvent("Outcome") /\ E.i \in Idx /\ cst[E.i] = (IF E.k = "raise"
             /\ (~IsCall(E.i) => (E.k = "nothing" /\ outcome[E.i] = "none"))
             /\ UNCHANGED vars
 \* end of the run: who is still waiting, what the client still remembers
-TEnd     == /\ IsEvent("End") /\ E.waiting = Cardinality({i \in Idx : cst[i] = "waiting"}) /\ E.pending = Cardinality(futures)
+TEnd     == /\ IsEvent("End") /\ E.waiting = Cardinality({i \in Idx : cst[i] = "waiting"})
+            /\ ("pending" \in DOMAIN E => E.pending = Cardinality(futures))
             /\ UNCHANGED vars
 TraceNext == TStart \/ TServe \/ TDeliver \/ TStray \/ TClose \/ TOutcome \/ TEnd
 TraceConstraint == TypeOK /\ NoCrossTalk /\ AnswerAfterServe /\ NotifyFireAndForget /\ FuturesExact /\ ServedOnce /\ RaisesOnlyFor /\ Progress
